@@ -1,7 +1,7 @@
 (* C08: the index algebra every strategy routes its numbers through does not depend on how the
    candidates are addressed. *)
 From Coq Require Import ZArith List Bool Lia Arith Sorted.
-From V Require Import Base.OptOrder Model.Sel Model.PoolQuery Proofs.PoolProofs.
+From V Require Import Base.OptOrder Model.Sel Model.PoolQuery Proofs.SelProofs Proofs.PoolProofs Proofs.PoolLoopsProofs.
 Import ListNotations.
 Close Scope Z_scope.
 
@@ -116,3 +116,105 @@ Example quire_position_subset_differs :
   let lab := [false; false; false; true] in
   pos_of 2 (cand_set lab (CIdx [2])) = 0%nat /\ count_unl_before lab 2 = 2%nat.
 Proof. vm_compute. split; reflexivity. Qed.
+
+(* ---------- feature rows vs indices: same utilities for the same samples ---------- *)
+(* candidates given as feature rows: the utilities ARE the candidate scores (identity scatter) *)
+Lemma scatter_identity (s : list val) : scatter (seq 0 (length s)) s (repeat None (length s)) = s.
+Proof.
+  assert (H : forall (pre s : list val),
+             scatter (seq (length pre) (length s)) s (pre ++ repeat None (length s)) = pre ++ s).
+  { intros pre s0. revert pre. induction s0 as [|x t IH]; intros pre; [cbn; rewrite app_nil_r; reflexivity|].
+    cbn [length seq scatter repeat].
+    assert (E : set_at (pre ++ None :: repeat None (length t)) (length pre) x = (pre ++ [x]) ++ repeat None (length t)).
+    { clear IH. induction pre as [|p pre IHp]; cbn; [reflexivity|]. rewrite IHp. reflexivity. }
+    rewrite E. specialize (IH (pre ++ [x])). rewrite app_length in IH. cbn [length] in IH.
+    replace (length pre + 1)%nat with (S (length pre)) in IH by lia.
+    rewrite IH, <- app_assoc. reflexivity. }
+  exact (H [] s).
+Qed.
+
+(* the score of the i-th candidate sits at position mapping[i] when candidates are indices and at
+   position i when they are feature rows *)
+Theorem rows_vs_indices (f : nat -> val) n cs i :
+  NoDup cs -> Forall (fun c => (c < n)%nat) cs -> (i < length cs)%nat ->
+  nth (nth i cs O) (scatter cs (map f cs) (repeat None n)) None =
+  nth i (scatter (seq 0 (length cs)) (map f cs) (repeat None (length cs))) None.
+Proof.
+  intros Hnd Hlt Hi.
+  rewrite scatter_nth by (try assumption; rewrite repeat_length; assumption).
+  assert (Hin : In (nth i cs O) cs) by (apply nth_In; exact Hi).
+  apply memb_In in Hin. rewrite Hin.
+  replace (length cs) with (length (map f cs)) by apply map_length.
+  rewrite scatter_identity.
+  rewrite (nth_indep _ None (f O)) by (rewrite map_length; exact Hi).
+  rewrite map_nth. reflexivity.
+Qed.
+
+(* ---------- a unique best candidate is selected whatever the tie-breaking noise ---------- *)
+Theorem unique_best_selected (a : list val) (noise : list Z) (m : Z) (p : nat) :
+  noise_ok (length a) noise -> nanmax a = Some m ->
+  (forall q, (q < length a)%nat -> nth q a None = Some m -> q = p) ->
+  rand_argmax a noise = p.
+Proof.
+  intros Hn Hm Hu. destruct (rand_argmax_optimal a noise m Hn Hm) as [Hlt Hv]. apply Hu; assumption.
+Qed.
+
+(* hence: with a unique best candidate, indices and feature rows select the same sample *)
+Theorem same_selection_when_unique (f : nat -> val) n cs nz nz' m i :
+  NoDup cs -> Forall (fun c => (c < n)%nat) cs -> (i < length cs)%nat ->
+  f (nth i cs O) = Some m ->
+  (forall j, (j < length cs)%nat -> forall k, f (nth j cs O) = Some k -> (k < m)%Z \/ j = i) ->
+  noise_ok n nz -> noise_ok (length cs) nz' ->
+  rand_argmax (scatter cs (map f cs) (repeat None n)) nz = nth i cs O /\
+  rand_argmax (scatter (seq 0 (length cs)) (map f cs) (repeat None (length cs))) nz' = i.
+Proof.
+  intros Hnd Hlt Hi Hfi Hbest Hnz Hnz'.
+  assert (Hlt' : Forall (fun c => (c < length (repeat (@None Z) n))%nat) cs) by (rewrite repeat_length; exact Hlt).
+  set (U := scatter cs (map f cs) (repeat None n)).
+  assert (HU : forall q, nth q U None = if memb q cs then f q else None).
+  { intros q. unfold U. rewrite scatter_nth by assumption. destruct (memb q cs); [reflexivity|].
+    destruct (Nat.lt_ge_cases q n); [apply nth_repeat|apply nth_overflow; rewrite repeat_length; assumption]. }
+  assert (HlenU : length U = n) by (unfold U; rewrite scatter_length, repeat_length; reflexivity).
+  assert (Hin : In (nth i cs O) cs) by (apply nth_In; exact Hi).
+  assert (Hmax : nanmax U = Some m).
+  { apply nanmax_char.
+    - assert (E : nth (nth i cs O) U None = Some m) by (rewrite HU; apply memb_In in Hin; rewrite Hin; exact Hfi).
+      rewrite <- E. apply nth_In. rewrite HlenU. rewrite Forall_forall in Hlt. apply Hlt. exact Hin.
+    - intros k Hk. destruct (In_nth _ _ None Hk) as [q [Hq Hqv]]. rewrite HU in Hqv.
+      destruct (memb q cs) eqn:Eq; [|discriminate]. apply memb_In in Eq.
+      destruct (In_nth _ _ O Eq) as [j [Hj Hjq]]. subst q.
+      destruct (Hbest j Hj k Hqv) as [Hl | ->]; [lia|]. rewrite Hfi in Hqv. injection Hqv as <-. lia. }
+  split.
+  - apply (unique_best_selected U nz m); [rewrite HlenU; exact Hnz|exact Hmax|].
+    intros q Hq Hqv. rewrite HU in Hqv. destruct (memb q cs) eqn:Eq; [|discriminate]. apply memb_In in Eq.
+    destruct (In_nth _ _ O Eq) as [j [Hj Hjq]]. subst q.
+    destruct (Hbest j Hj m Hqv) as [Hl | ->]; [lia|reflexivity].
+  - replace (length cs) with (length (map f cs)) by apply map_length. rewrite scatter_identity.
+    assert (Hn2 : forall j, (j < length cs)%nat -> nth j (map f cs) None = f (nth j cs O)).
+    { intros j Hj. rewrite (nth_indep _ None (f O)) by (rewrite map_length; exact Hj). apply map_nth. }
+    apply (unique_best_selected (map f cs) nz' m); [rewrite map_length; exact Hnz'| |].
+    + apply nanmax_char.
+      * rewrite <- Hfi, <- (Hn2 i Hi). apply nth_In. rewrite map_length. exact Hi.
+      * intros k Hk. apply in_map_iff in Hk. destruct Hk as [c [Hc Hcin]].
+        destruct (In_nth _ _ O Hcin) as [j [Hj Hjc]]. subst c.
+        destruct (Hbest j Hj k Hc) as [Hl | ->]; [lia|]. rewrite Hfi in Hc. injection Hc as <-. lia.
+    + intros q Hq Hqv. rewrite map_length in Hq. rewrite (Hn2 q Hq) in Hqv.
+      destruct (Hbest q Hq m Hqv) as [Hl | ->]; [lia|reflexivity].
+Qed.
+
+(* ---------- reordering the rows of (X, y) reorders the utilities accordingly ---------- *)
+Theorem permutation_equivariance (f : nat -> val) (pi : nat -> nat) n cs cs' j :
+  NoDup cs -> NoDup cs' -> Forall (fun c => (c < n)%nat) cs -> Forall (fun c => (c < n)%nat) cs' ->
+  (forall i, In i cs' <-> In (pi i) cs) -> (j < n)%nat -> (pi j < n)%nat ->
+  nth j (scatter cs' (map (fun i => f (pi i)) cs') (repeat None n)) None =
+  nth (pi j) (scatter cs (map f cs) (repeat None n)) None.
+Proof.
+  intros H1 H2 H3 H4 Hpi Hj Hpj.
+  rewrite (scatter_nth (fun i => f (pi i))) by (try assumption; rewrite repeat_length; assumption).
+  rewrite (scatter_nth f) by (try assumption; rewrite repeat_length; assumption).
+  destruct (memb j cs') eqn:E.
+  - apply memb_In in E. apply Hpi in E. apply memb_In in E. rewrite E. reflexivity.
+  - destruct (memb (pi j) cs) eqn:E'.
+    + apply memb_In in E'. apply Hpi in E'. apply memb_In in E'. congruence.
+    + rewrite !nth_repeat; reflexivity.
+Qed.
